@@ -644,6 +644,18 @@ func invertSplit(sp *SplitExp, i CollectionIndex) (bool, Exp, error) {
 	return false, sp, nil
 }
 
+// splitMapType returns the type of a map literal whose values, of type t, are
+// split over the forks of a map call.
+//
+// If t is itself a typed map then that is map<map<...>>, which is not a type
+// that can be looked up, but all that is needed is the type of the values.
+func splitMapType(t Type, lookup *TypeLookup) Type {
+	if t.TypeId().MapDim != 0 {
+		return &TypedMapType{Elem: t}
+	}
+	return lookup.GetMap(t)
+}
+
 func (s *SplitExp) filter(t Type, lookup *TypeLookup) (Exp, error) {
 	if _, ok := baseType(t).(*StructType); !ok {
 		return s, nil
@@ -655,14 +667,14 @@ func (s *SplitExp) filter(t Type, lookup *TypeLookup) (Exp, error) {
 	case ModeArrayCall:
 		t = lookup.GetArray(t, 1)
 	case ModeMapCall:
-		t = lookup.GetMap(t)
+		t = splitMapType(t, lookup)
 	default:
 		if ss, ok := s.Value.(MapCallSource); ok {
 			switch ss.CallMode() {
 			case ModeArrayCall:
 				t = lookup.GetArray(t, 1)
 			case ModeMapCall:
-				t = lookup.GetMap(t)
+				t = splitMapType(t, lookup)
 			case ModeNullMapCall:
 				t = builtinNull
 			default:
